@@ -2,20 +2,61 @@
 
 CONSTANTS[group] = [(lean_name, file relative to /repo, regex with ONE group, kind)]
 kind: "int" | "intlist" | "f64ratio"
+
+Besides plain constants, several items pin the SHAPE of a guard: the regex spans the whole
+condition (and the neighbouring branch, to pin the order) and captures one integer inside it,
+so that any edit of the guard makes the item LOST (value 0) and the theorems that need the
+concrete value (`ArrowModel.C20.source_shape_pins`, `like_correct`, `ilike_ascii_fast_path`) fail.
 """
+P = "arrow-string/src/predicate.rs"
+S = "arrow-string/src/substring.rs"
 CONSTANTS = {
     "C20": [
         # `Predicate::like`: how many bytes are cut off the END of the pattern for the StartsWith shortcut
-        ("LIKE_TRIM_END", "arrow-string/src/predicate.rs",
+        ("LIKE_TRIM_END", P,
          r"Ok\(Self::StartsWith\(&pattern\[\.\.pattern\.len\(\)\s*-\s*(\d+)\]\)\)", "int"),
         # ... and off the START for the EndsWith shortcut
-        ("LIKE_TRIM_START", "arrow-string/src/predicate.rs",
+        ("LIKE_TRIM_START", P,
          r"Ok\(Self::EndsWith\(&pattern\[(\d+)\.\.\]\)\)", "int"),
         # the Contains shortcut `&pattern[1..pattern.len() - 1]`
-        ("LIKE_CONTAINS_TRIM_START", "arrow-string/src/predicate.rs",
+        ("LIKE_CONTAINS_TRIM_START", P,
          r"Ok\(Self::contains\(&pattern\[(\d+)\.\.pattern\.len\(\)\s*-\s*\d+\]\)\)", "int"),
-        ("LIKE_CONTAINS_TRIM_END", "arrow-string/src/predicate.rs",
+        ("LIKE_CONTAINS_TRIM_END", P,
          r"Ok\(Self::contains\(&pattern\[\d+\.\.pattern\.len\(\)\s*-\s*(\d+)\]\)\)", "int"),
+        # guard shapes of `Predicate::like` (order: Eq, StartsWith, EndsWith, Contains, Regex)
+        ("LIKE_GUARD_STARTSWITH", P,
+         r"if !contains_like_pattern\(pattern\)\s*\{\s*Ok\(Self::Eq\(pattern\)\)\s*\}\s*else if pattern\.ends_with\('%'\)\s*&&\s*!contains_like_pattern\(&pattern\[\.\.pattern\.len\(\)\s*-\s*(\d+)\]\)\s*\{\s*Ok\(Self::StartsWith", "int"),
+        ("LIKE_GUARD_ENDSWITH", P,
+         r"Ok\(Self::StartsWith\([^\n]*\s*\}\s*else if pattern\.starts_with\('%'\)\s*&&\s*!contains_like_pattern\(&pattern\[(\d+)\.\.\]\)\s*\{\s*Ok\(Self::EndsWith", "int"),
+        ("LIKE_GUARD_CONTAINS_START", P,
+         r"Ok\(Self::EndsWith\([^\n]*\s*\}\s*else if pattern\.starts_with\('%'\)\s*&&\s*pattern\.ends_with\('%'\)\s*&&\s*!contains_like_pattern\(&pattern\[(\d+)\.\.pattern\.len\(\)\s*-\s*\d+\]\)\s*\{\s*Ok\(Self::contains", "int"),
+        ("LIKE_GUARD_CONTAINS_END", P,
+         r"else if pattern\.starts_with\('%'\)\s*&&\s*pattern\.ends_with\('%'\)\s*&&\s*!contains_like_pattern\(&pattern\[\d+\.\.pattern\.len\(\)\s*-\s*(\d+)\]\)\s*\{\s*Ok\(Self::contains\([^\n]*\s*\}\s*else\s*\{\s*Ok\(Self::Regex\(regex_like\(pattern, false\)\?\)\)", "int"),
+        # `contains_like_pattern`: memchr3 over exactly `%`, `_`, `\`
+        ("LIKE_SPECIAL_COUNT", P,
+         r"fn contains_like_pattern\(pattern: &str\) -> bool \{\s*memchr(\d)\(b'%', b'_', b'\\\\', pattern\.as_bytes\(\)\)\.is_some\(\)\s*\}", "int"),
+        # `Predicate::ilike`: the ASCII fast paths are taken only under `is_ascii && pattern.is_ascii()`
+        ("ILIKE_TRIM_END", P,
+         r"if is_ascii && pattern\.is_ascii\(\)\s*\{\s*if !contains_like_pattern\(pattern\)\s*\{\s*return Ok\(Self::IEqAscii\(pattern\)\);\s*\}\s*else if pattern\.ends_with\('%'\)\s*&&\s*!pattern\.ends_with\(\"\\\\%\"\)\s*&&\s*!contains_like_pattern\(&pattern\[\.\.pattern\.len\(\)\s*-\s*\d+\]\)\s*\{\s*return Ok\(Self::IStartsWithAscii\(&pattern\[\.\.pattern\.len\(\)\s*-\s*(\d+)\]\)\);", "int"),
+        ("ILIKE_GUARD_STARTSWITH", P,
+         r"else if pattern\.ends_with\('%'\)\s*&&\s*!pattern\.ends_with\(\"\\\\%\"\)\s*&&\s*!contains_like_pattern\(&pattern\[\.\.pattern\.len\(\)\s*-\s*(\d+)\]\)\s*\{\s*return Ok\(Self::IStartsWithAscii", "int"),
+        ("ILIKE_TRIM_START", P,
+         r"return Ok\(Self::IStartsWithAscii\([^\n]*\s*\}\s*else if pattern\.starts_with\('%'\)\s*&&\s*!contains_like_pattern\(&pattern\[\d+\.\.\]\)\s*\{\s*return Ok\(Self::IEndsWithAscii\(&pattern\[(\d+)\.\.\]\)\);\s*\}\s*\}\s*Ok\(Self::Regex\(regex_like\(pattern, true\)\?\)\)", "int"),
+        ("ILIKE_GUARD_ENDSWITH", P,
+         r"else if pattern\.starts_with\('%'\)\s*&&\s*!contains_like_pattern\(&pattern\[(\d+)\.\.\]\)\s*\{\s*return Ok\(Self::IEndsWithAscii", "int"),
+        # `byte_substring`: which offset of the pair each bound is computed from / clamped to, and that
+        # every computed bound goes through `check_char_boundary`
+        ("SUBSTR_POS_BASE", S,
+         r"Ordering::Greater => check_char_boundary\(\(pair\[(\d+)\] \+ start\)\.min\(pair\[1\]\)\)\?,", "int"),
+        ("SUBSTR_POS_CLAMP", S,
+         r"Ordering::Greater => check_char_boundary\(\(pair\[0\] \+ start\)\.min\(pair\[(\d+)\]\)\)\?,\s*Ordering::Equal => pair\[0\],", "int"),
+        ("SUBSTR_NEG_BASE", S,
+         r"Ordering::Less => check_char_boundary\(\(pair\[(\d+)\] \+ start\)\.max\(pair\[0\]\)\)\?,", "int"),
+        ("SUBSTR_END_CLAMP", S,
+         r"Some\(length\) => check_char_boundary\(\(length \+ new_start\)\.min\(pair\[(\d+)\]\)\)\?,\s*None => pair\[1\],", "int"),
+        # `utf8_bounds`: a negative start -k is the k-th character from the end
+        ("SUBSTRC_NTH_BACK_ADJ", S,
+         r"val\.char_indices\(\)\s*\.nth_back\(back - (\d+)\)\s*\.map_or\(0, \|\(offset, _\)\| offset\)", "int"),
         # `bit_length_impl`: bits per byte
         ("BIT_LENGTH_FACTOR", "arrow-string/src/length.rs",
          r"let bits = P::Native::usize_as\((\d+)\);", "int"),
